@@ -873,6 +873,11 @@ def report_rel(ctx, case, sig, detail):
 
 # --------------------------------------------------------------------------
 def run(ctx: Ctx, a_ok: bool):
+    from ..internals import params_diagnostics
+    try:
+        params_diagnostics(ctx)
+    except Exception as e:  # noqa: BLE001  (diagnostics never fail a check)
+        ctx.extra.setdefault('internal_diagnostics', {})['error'] = repr(e)[:300]
     ctx.cone = ["Params.edge_set_params/edge_get_params", "Params.unflatten_and_split/obj_kwargs (set_params_for)",
                 "Params.dist_set_params / set_dists_for", "Params.flatten / kw_update (nested dicts)",
                 "Params.u_*/b_*/m_*/h_* get and set methods", "Graph.build_graph (edge order)", "Dist.fam_weights (validity)"]
